@@ -963,6 +963,23 @@ class XNP:
                 break
         return xarr(vals) if vals else np.zeros(0)
 
+    def _minmax(self, a, b, take_min):
+        a_, b_ = np.broadcast_arrays(np.asarray(a, dtype=object), np.asarray(b, dtype=object))
+        out = np.empty(a_.shape, dtype=object)
+        for idx in np.ndindex(a_.shape):
+            x, y = a_[idx], b_[idx]
+            x = x if isinstance(x, R) or hasattr(x, "is_dual") else R(x)
+            y = y if isinstance(y, R) or hasattr(y, "is_dual") else R(y)
+            cnd = (x < y) if take_min else (x > y)
+            out[idx] = ite(cnd, x, y)
+        return out.view(XArr) if out.ndim else out[()]
+
+    def minimum(self, a, b):
+        return self._minmax(a, b, True)
+
+    def maximum(self, a, b):
+        return self._minmax(a, b, False)
+
     def logical_and(self, a, b):
         a_, b_ = np.broadcast_arrays(np.asarray(a, dtype=object), np.asarray(b, dtype=object))
         out = np.empty(a_.shape, dtype=object)
